@@ -39,7 +39,7 @@ CHECKS = {
         "non-trivial = (an anti-MEV commit was checked in a run with early deliveries or a failing pre-block callback) or a pre-commit was delivered while anti-MEV was off; distinct = hash of the choice stream",
         10000, 150000),
     "C11": rapid("TestC11",
-        "case = one adversarial-asynchronous world used as a random prefix, with probe actions: one inadmissible input of each listed class or the re-delivery of a stored payload, whole-state fingerprint compared before/after; every API call runs under panic capture; "
+        "case = one adversarial-asynchronous world used as a random prefix, with probe actions: one inadmissible input of each listed class or the re-delivery of a stored payload, whole-state fingerprint compared before/after; every API call runs under panic capture; a second generator drives one node as the speaker of 1-6 heights of a committee of 24-200 validators; "
         "non-trivial = a probe hit a node with >=2 non-empty tables; distinct = hash of the choice stream",
         4000, 60000),
     "C12": rapid("TestC12",
@@ -51,11 +51,11 @@ CHECKS = {
         "non-trivial = the watch-only index was primary of some (height, view) the node entered; distinct = hash of the choice stream",
         6000, 90000),
     "C08": rapid("TestC08",
-        "case = one fault-free timed world (N 1..7, 3-6 heights, start at genesis in 1/4 of the runs, anti-MEV off/on/switching, latency <= TimePerBlock/20 drawn per message, drawn order inside an instant, 0/10/40% duplicates, Reset lagging by up to two latencies); "
+        "case = one fault-free timed world (N 1..7, 3-6 heights, start at genesis in 1/4 of the runs, anti-MEV off/on/switching, latency <= TimePerBlock/20 drawn per message, drawn order inside an instant, 0/10/40% duplicates, Reset lagging by up to two latencies; a fifth of the worlds with a rotating committee: n of n+1 honest identities, one resting per height); "
         "non-trivial = the run completed and contained at least one early (cached) delivery and one duplicate; distinct = hash of the choice stream",
         8000, 120000, assumptions=ASYNC_ASSUME + ["synchrony: latency and Reset lag are far below TimePerBlock; timers fire exactly at their deadline"]),
     "C09": rapid("TestC09",
-        "case = one timed world (N 4..10) of a drawn fault family: (i) <=F validators silent from the start, preferably the primaries of the first views; (ii) a drawn subset cut off at a drawn instant for up to 30 block times, then healed; (iii) crash + amnesia restart of one validator (preferably the current primary); "
+        "case = one timed world (N 4..10) of a drawn fault family: (i) <=F validators silent from the start, preferably the primaries of the first views; (ii) a drawn subset cut off at a drawn instant or event for up to 30 block times, then healed; (iii) crash + amnesia restart of one validator (preferably the current primary); (iv) silent validators and a healed partition; (v) silent validators and another validator that goes down at a drawn instant or right after its k-th own broadcast and comes back with empty state; "
         "after the last fault latency <= TimePerBlock/20 and every node runs ledger block-sync with a drawn period; horizon = last fault + heights*TimePerBlock*2^(highest view then + F + 4); hitting the event budget is inconclusive, never a violation; "
         "non-trivial = the run completed and had a decision in view>0, a ledger sync or a restart; distinct = hash of the choice stream",
         8000, 120000, assumptions=ASYNC_ASSUME + ["'eventually' is replaced by the stated virtual-time horizon", "applications fetch missing blocks from reachable peers (the contract's 'received by other means')"]),
@@ -69,12 +69,12 @@ CHECKS = {
         "non-trivial = N>1 or negative (h-v) or h>=2^31; cases are distinct by construction (grid points) / by (N,h,v) for drawn ones",
         2000, 20000, assumptions=["F_ref is computed by search (largest f with 3f+1<=N), the primary by 64-bit and big-integer arithmetic"]),
     "C14": rapid("TestC14",
-        "case = one single-node script (driver B: N 1..7, primary and backup roles, responses after drawn delays, change views, recovery requests, transactions, 1-3+ heights, dynamic block time 1/4) executed three times: at epoch E, at E+delta (delta = k*7*999983 s, a multiple of every increment in use, |k| up to 300, past and future) and again at E after the wall clock moved; "
+        "case = one single-node script (driver B: N 1..7, primary and backup roles, responses after drawn delays, change views, recovery requests, transactions, 1-3+ heights, dynamic block time 1/4) executed three times: at epoch E, at E+delta (delta = k*7*999983 s, a multiple of every increment in use, |k| up to 300, past and future; a sixth of the scripts on a clock that starts 100-1300 s after the Unix epoch, moved forward only) and again at E after the wall clock moved; "
         "oracle: identical sequences of payload summaries (hashes up to renaming), Timer.Reset/Extend arguments and accepted blocks, absolute timestamps shifted by exactly delta; "
         "non-trivial = the script had a primary round with a response after a non-zero delay followed by a Reset (the RTT estimate feeds a timer); distinct = hash of the choice stream",
         5000, 75000, assumptions=["the harness value types and callbacks are themselves clock-free; crypto/rand.Reader is replaced by a deterministic reader"]),
     "C15": rapid("TestC15",
-        "case = one single-node script in which the node proposes as primary (at Start, after Reset at the timer, in views >0), with previous-block timestamps before/around/after the clock, increments {1,7,999983,1e6,1e9} ns, pools of 0..20 transactions with a drawn per-block limit, clock stepping backwards; "
+        "case = one single-node script in which the node proposes as primary (at Start, after Reset at the timer, in views >0), with previous-block timestamps before/around/after the clock, increments {1,7,999983,1e6,1e9} ns, pools of 0..20 transactions with a drawn per-block limit (one script in a few hundred: 65536-65543 transactions, no limit), clock stepping backwards; "
         "non-trivial = a proposal was made with an unaligned clock and a non-empty pool, or with the clock at or behind the previous block's timestamp; distinct = hash of the choice stream",
         20000, 300000, assumptions=["the zone prev < trunc(clock) < prev+inc is only bounded (two readings of the statement)"]),
     "C19": rapid("TestC19",
